@@ -10,6 +10,7 @@ observation record and
 import json
 import os
 import re
+import signal
 
 from harness.engine import tlc as T
 from harness.engine.core import chunks
@@ -21,6 +22,17 @@ SLACK = 3  # reads granted beyond (remaining lines + attempt limit) before the b
 
 class Budget(BaseException):
     """raised by the stream wrappers; not an Exception, so that no `except Exception` of clikit can swallow it"""
+
+
+class Stalled(BaseException):
+    """hang guard only (never a verdict): a dialogue that neither reads nor writes nor ends for STALL_S seconds"""
+
+
+STALL_S = 120
+
+
+def _on_alarm(signum, frame):
+    raise Stalled()
 
 
 _ENV = {}
@@ -48,7 +60,9 @@ def _env():
 
     if hasattr(qmod, "subprocess"):
         qmod.subprocess = NoStty()
-    os.environ["PATH"] = "/nonexistent-c18"  # belt and braces: whatever is spawned cannot be stty
+    probe_q = Question("probe")
+    if hasattr(probe_q, "_has_stty_available") and probe_q._has_stty_available():
+        raise T.MachineryError("stty is reachable: the line-reading path is not guaranteed")
 
     class BudgetIn(InputStream):
         def __init__(self, text):
@@ -186,6 +200,23 @@ def proj(v):
     return r
 
 
+_FMT = []
+
+
+def _formatter():
+    """a formatter whose style stack is empty: the previous one is re-used only if plain text comes out of it
+    unchanged (an exception inside clikit's formatting may leave styles open)"""
+    if _FMT:
+        try:
+            if _FMT[0].format("<b></b>X") == "X":  # text after a closed tag shows styles left open
+                return _FMT[0]
+        except Exception:  # noqa
+            pass
+        del _FMT[:]
+    _FMT.append(_env()["AnsiFormatter"](forced=True))
+    return _FMT[0]
+
+
 class Session(object):
     """one IO = one input script; questions are asked on it one after the other"""
 
@@ -195,7 +226,7 @@ class Session(object):
         self.ins = E["BudgetIn"]("".join(x + "\n" for x in lines))
         self.out = E["BudgetOut"]()
         self.err = E["BudgetOut"]()
-        fmt = E["AnsiFormatter"](forced=True)
+        fmt = _formatter()
         self.io = E["IO"](E["Input"](self.ins), E["Output"](self.out, fmt), E["Output"](self.err, fmt))
         self.dead = False
 
@@ -217,7 +248,7 @@ class Session(object):
         except Budget:
             kind = "budget"
             self.dead = True
-        except KeyboardInterrupt:
+        except (KeyboardInterrupt, Stalled):
             raise
         except BaseException as e:  # noqa: every exception kind is an observation
             kind, cls = "exc", type(e).__name__
@@ -238,13 +269,21 @@ class Session(object):
 
 def run_case(case):
     """case = {"lines": [...], "questions": [qd, ...]} -> trace (list of events)"""
-    s = Session(case["lines"])
-    tr = []
-    for qd in case["questions"]:
-        tr.append(s.ask(qd))
-        if s.dead:
-            break
-    return tr
+    old = signal.signal(signal.SIGALRM, _on_alarm)
+    signal.alarm(STALL_S)
+    try:
+        s = Session(case["lines"])
+        tr = []
+        for qd in case["questions"]:
+            tr.append(s.ask(qd))
+            if s.dead:
+                break
+        return tr
+    except Stalled:
+        raise T.MachineryError("a dialogue made no progress for %d s (no read, no write, no end): %r" % (STALL_S, case))
+    finally:
+        signal.alarm(0)
+        signal.signal(signal.SIGALRM, old)
 
 
 # ---------------------------------------------------------------------------------- spec -> code
@@ -282,13 +321,17 @@ def nontrivial(ev):
 class Replayer(object):
     """consumes TLC's output line by line (line_sink): every emitted behaviour is replayed at once"""
 
+    KEEP = 5000
+
     def __init__(self, ctx):
         self.ctx = ctx
+        self.nmism = 0
         self.pools = None
         self.n = 0
         self.mism = []  # (trace, case)
         self.sampled = []
         self.kinds = {}
+        self.cats = {}
         self.first = None
 
     def __call__(self, line):
@@ -305,11 +348,27 @@ class Replayer(object):
         self.n += 1
         self.ctx.count()
         self.kinds[rec["kind"]] = self.kinds.get(rec["kind"], 0) + 1
+        # what kinds of model behaviours were enumerated (vacuity guard, not a verdict)
+        if not rec["i"]:
+            cat = "non-interactive"
+        elif rec["ok"] == "ret":
+            cat = "answer-after-retry" if rec["r"] >= 2 else ("multi-answer" if rec["t"] == "list" else "answer-first-try")
+        elif rec["r"] > rec["n"]:
+            cat = "gave-up-at-end-of-input"
+        else:
+            cat = "failed-after-all-attempts"
+        self.cats[cat] = self.cats.get(cat, 0) + 1
         if nontrivial(tr[0]):
             self.ctx.nontrivial_n += 1  # every TLC behaviour is a distinct (question, script)
         if not same(expected_obs(rec), tr[0]["obs"]):
-            if len(self.mism) < 60000:
+            # all of them are decided by DialogueTrace up to KEEP; beyond that a uniform sample of KEEP (reservoir)
+            self.nmism += 1
+            if len(self.mism) < self.KEEP:
                 self.mism.append((tr, case))
+            else:
+                j = self.ctx.rng.randrange(self.nmism)
+                if j < self.KEEP:
+                    self.mism[j] = (tr, case)
         elif self.n % 97 == 0 and len(self.sampled) < 3000:
             self.sampled.append((tr, case))
         if self.first is None and rec["r"] >= 2:
@@ -393,9 +452,9 @@ def rand_case(rng):
 # ---------------------------------------------------------------------------------- check
 MODEL_RUNS = {
     "quick": [("MC_Dialogue_quick.cfg", "choice-dialogues", 60000), ("MC_Dialogue_misc.cfg", "plain-confirm-noninteractive", 1500)],
-    "thorough": [("MC_Dialogue_thorough_a.cfg", "choice-dialogues-3-lines", 600000),
-                 ("MC_Dialogue_thorough_b.cfg", "choice-dialogues-3-choices", 200000),
-                 ("MC_Dialogue_misc.cfg", "plain-confirm-noninteractive", 1500)],
+    "thorough": [("MC_Dialogue_quick.cfg", "choice-dialogues", 60000), ("MC_Dialogue_misc.cfg", "plain-confirm-noninteractive", 1500),
+                 ("MC_Dialogue_thorough_a.cfg", "choice-dialogues-3-lines (safety)", 600000),
+                 ("MC_Dialogue_thorough_b.cfg", "choice-dialogues-3-choices (safety)", 500000)],
 }
 
 
@@ -436,7 +495,16 @@ def run(ctx):
             raise T.MachineryError("%s emitted only %d behaviours" % (cfg, rp.n - before))
     ctx.extra["tlc_behaviours_replayed"] = rp.n
     ctx.extra["tlc_behaviours_by_kind"] = rp.kinds
-    ctx.extra["tlc_behaviours_not_reproduced"] = len(rp.mism)
+    ctx.extra["tlc_behaviours_by_outcome"] = rp.cats
+    for cat in ("non-interactive", "answer-after-retry", "multi-answer", "answer-first-try", "gave-up-at-end-of-input",
+                "failed-after-all-attempts"):
+        if rp.cats.get(cat, 0) < 50:
+            raise T.MachineryError("model behaviours of kind '%s' are (nearly) missing: %r" % (cat, rp.cats))
+    for k in ("choice", "plain", "confirm"):
+        if rp.kinds.get(k, 0) < 50:
+            raise T.MachineryError("model behaviours of question kind '%s' are (nearly) missing: %r" % (k, rp.kinds))
+    ctx.extra["tlc_behaviours_not_reproduced"] = rp.nmism
+    ctx.extra["tlc_behaviours_not_reproduced_sent_to_trace_validation"] = len(rp.mism)
     ctx.exhaustive = True
     if rp.first:
         ctx.sample(rp.first)
